@@ -13,9 +13,17 @@ package responder
 //                (never return a different value).  A call that neither fails nor answers is reported only after a 20 s
 //                watchdog, from a stable parked goroutine, together with the proof that the datagram was dropped by an encoder
 //                (the callback never saw the request / the responder logged that it could not build the answer).
+//   concurrent   bursts of 4 / 16 / 32 requesters, each with its own socket and a unique payload, against one fresh responder:
+//                "prequeued" (all queries are in the responder's socket buffer before RecvAndRespond is started) and "barrier"
+//                (RecvAndRespond already running, the requesters released together).  The callback answers with a value derived
+//                from the payload it was given.  Oracle: the multiset of callback arguments equals the multiset of payloads
+//                sent (none decoded twice, none missing although its datagram was read, none unknown) and every requester's
+//                result is the answer to ITS payload.
 
 import (
 	"bytes"
+	"context"
+	"crypto/sha256"
 	"encoding/base32"
 	"errors"
 	"fmt"
@@ -391,16 +399,28 @@ type c15Tap struct {
 	reqs            int // datagrams received
 	answers         int // datagrams sent
 	answersWithData int // sent, RCODE 0, one TXT answer with a non-empty payload
+	shutByDriver    bool
 }
 
 func (t *c15Tap) ReadFrom(p []byte) (int, net.Addr, error) {
 	n, a, err := t.PacketConn.ReadFrom(p)
+	t.mu.Lock()
+	defer t.mu.Unlock()
 	if err == nil {
-		t.mu.Lock()
 		t.reqs++
-		t.mu.Unlock()
+	} else if t.shutByDriver {
+		// RecvAndRespond retries forever on every net.Error (a closed socket yields one); hand it a plain error so that it returns
+		return 0, nil, errors.New("verif: socket closed by the driver")
 	}
 	return n, a, err
+}
+
+// shut closes the socket at the end of a burst (frees the port) in a way that lets RecvAndRespond return.
+func (t *c15Tap) shut() {
+	t.mu.Lock()
+	t.shutByDriver = true
+	t.mu.Unlock()
+	t.PacketConn.Close()
 }
 
 func (t *c15Tap) WriteTo(p []byte, a net.Addr) (int, error) {
@@ -778,7 +798,7 @@ func TestVerifC15Exchange(t *testing.T) {
 	t.Logf("sweep done after %v, calls that never returned: %d", time.Since(t0).Round(time.Millisecond), stuckN)
 	// seeded pairs
 	rqs := map[string]*requester.Requester{}
-	for i, n := 0, kit.Tier(3000, 120000); i < n; i++ {
+	for i, n := 0, kit.Tier(1500, 120000); i < n; i++ {
 		s := servers[doms[rng.Intn(len(doms))]]
 		if rqs[s.dom] == nil || i%500 == 0 {
 			rqs[s.dom] = s.newRequester(t)
@@ -902,6 +922,314 @@ func TestVerifC15CraftResponse(t *testing.T) {
 		rec.Count("accepted_roundtrips", 1)
 		if n > 0 {
 			rec.Distinct("nontrivial", desc)
+		}
+	}
+}
+
+// ---- concurrent exchange --------------------------------------------------------------------------------------------------------
+
+// c15CountConn counts the datagrams a requester has really handed to its socket.
+type c15CountConn struct {
+	net.Conn
+	mu   *sync.Mutex
+	n    *int
+	shut bool
+}
+
+// Read hands the requester's recvLoop a plain error once the driver has closed the socket (it would spin on a net.Error).
+func (c *c15CountConn) Read(p []byte) (int, error) {
+	k, err := c.Conn.Read(p)
+	if err != nil {
+		c.mu.Lock()
+		shut := c.shut
+		c.mu.Unlock()
+		if shut {
+			return 0, errors.New("verif: socket closed by the driver")
+		}
+	}
+	return k, err
+}
+
+func (c *c15CountConn) shutdown() {
+	c.mu.Lock()
+	c.shut = true
+	c.mu.Unlock()
+	c.Conn.Close()
+}
+
+func (c *c15CountConn) Write(p []byte) (int, error) {
+	k, err := c.Conn.Write(p)
+	if err == nil {
+		c.mu.Lock()
+		*c.n++
+		c.mu.Unlock()
+	}
+	return k, err
+}
+
+// c15Answer is what the callback of the concurrent phase returns for a payload: derived from it, different for different
+// payloads, of varying length.
+func c15Answer(p []byte) []byte {
+	h := sha256.Sum256(p)
+	out := append([]byte("answer-to:"), h[:]...)
+	return append(out, p[:len(p)/2]...)
+}
+
+type c15Burst struct {
+	mode string
+	n    int
+	lens string
+}
+
+func c15RunBurst(t *testing.T, rec *kit.Rec, rng *mrand.Rand, b c15Burst, idx int) (clean bool) {
+	desc := fmt.Sprintf("burst#%d mode=%s requesters=%d payload-lengths=%s", idx, b.mode, b.n, b.lens)
+	rec.Case(desc)
+	rec.Count("evaluations", 1)
+
+	priv, err := encryption.GeneratePrivkey()
+	if err != nil {
+		t.Fatal(err)
+	}
+	const dom = "t.example.com"
+	r, err := NewDnsResponder(dom, "127.0.0.1:0", priv)
+	if err != nil {
+		t.Fatal(err)
+	}
+	tap := &c15Tap{PacketConn: r.transport}
+	r.transport = tap
+	pub := encryption.PubkeyFromPrivkey(priv)
+	var mu sync.Mutex
+	args := map[string]int{}
+	var argOrder [][]byte
+	serve := func() {
+		// never closed: after Close, RecvAndRespond spins on the net.Error forever
+		go r.RecvAndRespond(func(p []byte) ([]byte, error) {
+			mu.Lock()
+			args[string(p)]++
+			argOrder = append(argOrder, append([]byte(nil), p...))
+			mu.Unlock()
+			return c15Answer(p), nil
+		})
+	}
+
+	// unique payloads: 8-byte burst/requester id + random bytes; all of one length, or mixed lengths
+	capacity := c15Capacity(r.domain)
+	fixed := 12 + rng.Intn(capacity-12)
+	payloads := make([][]byte, b.n)
+	for i := range payloads {
+		l := fixed
+		if b.lens == "mixed" {
+			l = 12 + rng.Intn(capacity-12)
+		}
+		p := c15Payload(rng, l)
+		copy(p, fmt.Sprintf("%04x%04x", idx&0xffff, i))
+		payloads[i] = p
+	}
+
+	var wmu sync.Mutex
+	writes := 0
+	var conns []*c15CountConn
+	dial := func(ctx context.Context, network, addr string) (net.Conn, error) {
+		c, err := (&net.Dialer{}).DialContext(ctx, network, addr)
+		if err != nil {
+			return nil, err
+		}
+		cc := &c15CountConn{Conn: c, mu: &wmu, n: &writes}
+		wmu.Lock()
+		conns = append(conns, cc)
+		wmu.Unlock()
+		return cc, nil
+	}
+	type outcome struct {
+		res  []byte
+		err  error
+		pk   string
+		done chan struct{}
+	}
+	outs := make([]*outcome, b.n)
+	rqs := make([]*requester.Requester, b.n)
+	for i := range rqs {
+		rq, err := requester.NewRequester(&requester.Config{TransportMethod: requester.UDP, Target: tap.LocalAddr().String(), BaseDomain: dom, Pubkey: pub, DialTransport: dial})
+		if err != nil {
+			t.Fatal(err)
+		}
+		rqs[i] = rq
+		outs[i] = &outcome{done: make(chan struct{})}
+	}
+	if b.mode == "barrier" {
+		serve()
+	}
+	release := make(chan struct{})
+	var ready sync.WaitGroup
+	for i := range rqs {
+		ready.Add(1)
+		go func(i int) {
+			defer close(outs[i].done)
+			ready.Done()
+			<-release
+			if pk, v, st := c15Try(func() { outs[i].res, outs[i].err = rqs[i].RequestAndRecv(payloads[i]) }); pk {
+				outs[i].pk = fmt.Sprint(v) + "\n" + st
+			}
+		}(i)
+	}
+	ready.Wait()
+	start := time.Now()
+	close(release)
+	sent := func() int {
+		wmu.Lock()
+		defer wmu.Unlock()
+		return writes
+	}
+	if b.mode == "prequeued" {
+		// wait until every query is in the responder's socket buffer (loopback delivery is synchronous with the send), then
+		// start reading
+		for sent() < b.n && time.Since(start) < c15Watchdog {
+			time.Sleep(200 * time.Microsecond)
+		}
+		serve()
+	}
+	deadline := time.NewTimer(c15Watchdog)
+	defer deadline.Stop()
+	timedOut := false
+	for i := range outs {
+		if timedOut {
+			select {
+			case <-outs[i].done:
+			default:
+			}
+			continue
+		}
+		select {
+		case <-outs[i].done:
+		case <-deadline.C:
+			timedOut = true
+		}
+	}
+	if timedOut {
+		time.Sleep(500 * time.Millisecond) // let handlers that are mid-way finish recording
+	}
+
+	// ---- judge the burst ----------------------------------------------------------------------------------------------------
+	mu.Lock()
+	seen := map[string]int{}
+	for k, v := range args {
+		seen[k] = v
+	}
+	order := append([][]byte(nil), argOrder...)
+	mu.Unlock()
+	x := tap.marks()
+	nSent := sent()
+	base := map[string]interface{}{"case": desc, "datagrams_sent_by_requesters": nSent, "datagrams_read_by_responder": x.reqs,
+		"answers_sent_by_responder": x.answers, "answers_carrying_data": x.answersWithData, "callback_invocations": len(order)}
+	with := func(extra map[string]interface{}) map[string]interface{} {
+		d := map[string]interface{}{}
+		for k, v := range base {
+			d[k] = v
+		}
+		for k, v := range extra {
+			d[k] = v
+		}
+		return d
+	}
+	clean = true
+	isSent := map[string]int{}
+	for i, p := range payloads {
+		isSent[string(p)] = i
+	}
+	for _, a := range order {
+		if _, ok := isSent[string(a)]; !ok {
+			clean = false
+			rec.Violation("concurrent:"+b.mode+":callback-received-a-payload-nobody-sent", "the responder's callback was handed bytes that no requester sent",
+				with(map[string]interface{}{"payload": kit.HexN(a, 24)}))
+			break
+		}
+	}
+	for i, p := range payloads {
+		o := outs[i]
+		finished := false
+		select {
+		case <-o.done:
+			finished = true
+		default:
+		}
+		id := fmt.Sprintf("requester %d payload %s…(%dB)", i, string(p[:8]), len(p))
+		k := seen[string(p)]
+		switch {
+		case o.pk != "":
+			clean = false
+			rec.Violation("concurrent:"+b.mode+":panic", "RequestAndRecv panicked", with(map[string]interface{}{"requester": id, "panic": o.pk}))
+		case k > 1:
+			clean = false
+			rec.Violation("concurrent:"+b.mode+":payload-decoded-more-than-once", "one requester's payload reached the callback more than once although it was sent once (another query's handler decoded it)",
+				with(map[string]interface{}{"requester": id, "times": k}))
+		case k == 0 && x.reqs >= b.n && nSent >= b.n:
+			clean = false
+			rec.Violation("concurrent:"+b.mode+":request-read-but-never-decoded", "every query was read from the socket by the responder, yet this requester's payload never reached the callback",
+				with(map[string]interface{}{"requester": id, "finished": finished, "error": fmt.Sprint(o.err)}))
+		case finished && o.err == nil && !bytes.Equal(o.res, c15Answer(p)):
+			clean = false
+			rec.Violation("concurrent:"+b.mode+":result-is-not-the-answer-to-own-payload", "RequestAndRecv returned bytes that are not the callback's answer to this requester's payload",
+				with(map[string]interface{}{"requester": id, "got": kit.HexN(o.res, 24), "want": kit.HexN(c15Answer(p), 24)}))
+		case finished && o.err != nil && k == 1:
+			clean = false
+			rec.Violation("concurrent:"+b.mode+":requester-cannot-decode-the-answer-it-received", "the callback answered this requester's payload, but RequestAndRecv failed on the answer datagram it received (an answer meant for another session?)",
+				with(map[string]interface{}{"requester": id, "error": fmt.Sprint(o.err)}))
+		case finished && o.err != nil:
+			clean = false
+			rec.Inconclusive("RequestAndRecv failed and the query is not proven to have reached the responder", with(map[string]interface{}{"requester": id, "error": fmt.Sprint(o.err)}))
+		case !finished:
+			clean = false
+			rec.Inconclusive("no answer within the watchdog and no proof of cross-talk (possible UDP loss)", with(map[string]interface{}{"requester": id, "callback_saw_payload": k}))
+		default:
+			rec.Count("accepted_roundtrips", 1)
+			rec.Distinct("nontrivial", desc, i)
+		}
+	}
+	for i, o := range outs { // release readers that are still parked
+		select {
+		case <-o.done:
+		default:
+			rqs[i].Close()
+		}
+	}
+	// free the sockets of this burst (thousands of bursts would otherwise exhaust the ephemeral ports)
+	wmu.Lock()
+	cs := append([]*c15CountConn(nil), conns...)
+	wmu.Unlock()
+	for _, c := range cs {
+		c.shutdown()
+	}
+	tap.shut()
+	if clean {
+		rec.Count("bursts_clean", 1)
+		rec.Distinct("burst_shapes", b.mode, b.n, b.lens)
+		if rec.WantSample() && b.n >= 16 {
+			rec.Sample(base)
+		}
+	}
+	return clean
+}
+
+func TestVerifC15ExchangeConcurrent(t *testing.T) {
+	log.SetOutput(c15Logs)
+	rec := kit.NewRec("C15", "concurrent")
+	defer rec.Close()
+	rng := kit.Rand("c15concurrent")
+	reps := kit.Tier(4, 40)
+	idx, dirty := 0, 0
+	for rep := 0; rep < reps; rep++ {
+		for _, mode := range []string{"prequeued", "barrier"} {
+			for _, n := range []int{4, 16, 32} {
+				for _, lens := range []string{"equal", "mixed"} {
+					if dirty >= 3 { // enough evidence; a burst that hangs costs a full watchdog
+						return
+					}
+					idx++
+					if !c15RunBurst(t, rec, rng, c15Burst{mode, n, lens}, idx) {
+						dirty++
+					}
+				}
+			}
 		}
 	}
 }
